@@ -960,6 +960,7 @@ CONSTANTS
   W = %d
   N = %d
   ErrAt = %d
+  ErrAt2 = %d
   Kind = "%s"
   DoneOnError = %s
   Shared = %s
@@ -1006,24 +1007,26 @@ def pool_family(run, replay):
         check_cfgs.append((1, 2, 1, kind))
         check_cfgs.append((3, 2, 2, kind))       # more workers than trees
         check_cfgs.append((2, 3, 2, kind))
+        check_cfgs.append((2, 3, 1, kind, 3))    # two erroneous trees (seeded C11-8: a second error must not block its worker)
         if run.tier == "thorough":
-            check_cfgs += [(2, 3, 0, kind), (2, 3, 3, kind), (3, 3, 1, kind), (2, 4, 3, kind)]
+            check_cfgs += [(2, 3, 0, kind), (2, 3, 3, kind), (3, 3, 1, kind), (2, 4, 3, kind), (3, 3, 1, kind, 2), (2, 4, 2, kind, 4)]
     if run.tier == "thorough":
         emit_cfgs += [(2, 3, 2, "compare"), (3, 2, 1, "fbp")]
     outs = []
 
     def mjob(cfg, emit):
         def f():
-            w, n, e, kind = cfg
-            return vk.run_model(run, "WorkerPool-%s-%d-%d-%d%s" % (kind, w, n, e, "-emit" if emit else ""), "WorkerPool.tla",
-                                POOL_CFG % (w, n, e, kind, "TRUE", "FALSE", "TRUE" if emit else "FALSE"), workers=4, heap="6g")
+            w, n, e, kind = cfg[:4]
+            e2 = cfg[4] if len(cfg) > 4 else 0
+            return vk.run_model(run, "WorkerPool-%s-%d-%d-%d-%d%s" % (kind, w, n, e, e2, "-emit" if emit else ""), "WorkerPool.tla",
+                                POOL_CFG % (w, n, e, e2, kind, "TRUE", "FALSE", "TRUE" if emit else "FALSE"), workers=4, heap="6g")
         return f
     outs = vk.parallel([mjob(c, True) for c in emit_cfgs] + [mjob(c, False) for c in check_cfgs], nproc=4)
     # the two defects this property had in the code (040c220, 855db0c), as model variants: TLC must refute them
     refuted = {}
-    o = vk.run_model(run, "WorkerPool-fbp-nodone", "WorkerPool.tla", POOL_CFG % (2, 2, 1, "fbp", "FALSE", "FALSE", "FALSE"), workers=4, heap="4g", expect_ok=False)
+    o = vk.run_model(run, "WorkerPool-fbp-nodone", "WorkerPool.tla", POOL_CFG % (2, 2, 1, 0, "fbp", "FALSE", "FALSE", "FALSE"), workers=4, heap="4g", expect_ok=False)
     refuted["worker returns without wg.Done on an erroneous tree => caller never terminates"] = ("violated" in o)
-    o = vk.run_model(run, "WorkerPool-compare-shared", "WorkerPool.tla", POOL_CFG % (2, 2, 0, "compare", "TRUE", "TRUE", "FALSE"), workers=4, heap="4g", expect_ok=False)
+    o = vk.run_model(run, "WorkerPool-compare-shared", "WorkerPool.tla", POOL_CFG % (2, 2, 0, 0, "compare", "TRUE", "TRUE", "FALSE"), workers=4, heap="4g", expect_ok=False)
     refuted["per-tree structure shared by the workers => records differ from the single-threaded run"] = ("violated" in o)
     run.extra["defect_variants_refuted_by_tlc"] = refuted
     if not all(refuted.values()):
